@@ -317,6 +317,9 @@ class FnView:
                 return mk_bin("max", args[0], args[1])
             if not name and n.get("k") == "call":
                 return ("icall", T(n["f"])) + tuple(args)
+            inl = self._inline_pure(rname(n) or name, args, depth)
+            if inl is not None:
+                return inl
             return ("call", name) + tuple(args)
         if k == "block":
             if n.get("expr") is not None:
@@ -346,6 +349,36 @@ class FnView:
         if k == "continue":
             return ("continue",)
         return ("other", k or "?", n.get("sp", ""))
+
+    def _inline_pure(self, callee, args, depth):
+        """A call to a workspace function whose body is one side-effect-free expression (`fn f(&self) -> usize
+        { self.w - self.m + 1 }`) is replaced by that expression with the arguments substituted."""
+        if depth > 40 or not callee or callee == self.path:
+            return None
+        f = self.prog.fn(callee)
+        if f is None or f.get("mac") or f.get("dk") not in ("Fn", "AssocFn"):
+            return None
+        body = f.get("body") or {}
+        if body.get("k") != "block" or body.get("stmts") or body.get("expr") is None:
+            return None
+        cache = self.prog.__dict__.setdefault("_pure_cache", {})
+        if callee not in cache:
+            hv = FnView(self.prog, f)
+            t = hv.term(body["expr"])
+            ALLOWED = ("bin", "un", "lit", "field", "self", "param", "const", "cast", "proj")
+            pure = all(s_[0] in ALLOWED or (s_[0] == "call" and s_[1].endswith("::len")) for s_ in subterms(t))
+            pure = pure and t[0] in ("bin", "un", "cast", "call")     # a computation, not a bare getter or constructor
+            cache[callee] = (t, [p.get("name") for p in f.get("params", [])]) if pure else None
+        ent = cache[callee]
+        if ent is None:
+            return None
+        t, pnames = ent
+        env = {}
+        for i, a in enumerate(args):
+            if i < len(pnames) and pnames[i] == "self":
+                env[("self",)] = a
+            env[("param", i)] = a
+        return subst_plain(t, env)
 
     # -- navigation helpers
     def ancestors(self, n):
@@ -377,6 +410,11 @@ class FnView:
                 if par is not None and par.get("k") in ("call", "mcall") and pred(par):
                     return par
         return None
+
+    def guards_within(self, n, root):
+        """guards of n established inside `root` (conditions between root and n)"""
+        outer = [(id(c), p) for c, p in self.guards(root)]
+        return [(c, p) for c, p in self.guards(n) if (id(c), p) not in outer]
 
     # -- A4 guard context
     def guards(self, n, with_asserts=True):
@@ -1458,3 +1496,14 @@ def if_leaves(t):
     if isinstance(t, tuple) and t and t[0] == "if" and len(t) == 4:
         return if_leaves(t[2]) + if_leaves(t[3])
     return [t]
+
+
+
+def subst_plain(t, env):
+    if not isinstance(t, tuple):
+        return t
+    if t in env:
+        return env[t]
+    if t and t[0] == "bin" and len(t) == 4:
+        return mk_bin(t[1], subst_plain(t[2], env), subst_plain(t[3], env))
+    return tuple(subst_plain(x, env) if isinstance(x, tuple) else x for x in t)
